@@ -169,3 +169,66 @@ def install(reg):
             raise OutOfSubset("ColoredVertexSet(<unexpected arguments>)")
         return Val(TVS, cvs_of_bdd(a[0].t, a[1].t))
     reg.global_calls["ColoredVertexSet"] = cvs
+
+
+# ---------------------------------------------------------------------- AEON attractor algorithms used by the symbolic fallback (assumed)
+LCVS = TList(TVS)
+TGR = z3.Function("transition_guided_reduction", G, VS, TList(TName).sort(), VS)
+XieBeerel = z3.Function("xie_beerel", G, VS, LCVS.sort())
+ReachBwd = z3.Function("reach_bwd", G, VS, VS)
+TRUSTED["aeon.Attractors.transition_guided_reduction / xie_beerel, Reachability.reach_bwd"] = (
+    "deterministic functions of the graph and the given set (and the variable list); their MEANING - attractors inside the candidate set - is "
+    "part of the assumed call-site contract of symbolic_attractor_fallback")
+TRUSTED["biodivine_aeon.LOG_LEVEL"] = "reading / setting the logging level of the dependency has no effect on results"
+
+
+class _AeonModule(Val):
+    def __init__(self):
+        self.ty = THelper("module:biodivine_aeon")
+        self.t = None
+
+
+class _AeonModuleModel(ObjModel):
+    def getattr(self, eng, st, v, attr, node):
+        if attr in ("LOG_LEVEL", "LOG_ESSENTIAL"):
+            return vint(z3.Int("biodivine_aeon." + attr))
+        raise OutOfSubset(f"biodivine_aeon.{attr}")
+
+    def setattr(self, eng, st, v, attr, val):
+        if attr == "LOG_LEVEL":
+            return
+        raise OutOfSubset(f"store to biodivine_aeon.{attr}")
+
+
+class VSModel3(VSModel2):
+    def method(self, eng, st, val, meth, args, kw, node, recv_expr=None):
+        if meth == "cardinality" and not args:
+            return vint(vcard(val.t))
+        return super().method(eng, st, val, meth, args, kw, node, recv_expr)
+
+
+_install_vs1 = install
+
+
+def install(reg):
+    _install_vs1(reg)
+    reg.models = [(p, (VSModel3() if type(m) is VSModel2 else m)) for p, m in reg.models]
+    reg.add_model(lambda x: isinstance(x, _AeonModule), _AeonModuleModel())
+    reg.globals["biodivine_aeon"] = lambda eng, st: _AeonModule()
+
+    def tgr(eng, st, node):
+        a = [eng.ev(x, st) for x in node.args]
+        return Val(TVS, TGR(a[0].t, eng.coerce(a[1], TVS, st).t, eng.coerce(a[2], TList(TName), st).t))
+    reg.module_calls[("Attractors", "transition_guided_reduction")] = tgr
+
+    def xb(eng, st, node):
+        a = [eng.ev(x, st) for x in node.args]
+        r = Val(LCVS, XieBeerel(a[0].t, eng.coerce(a[1], TVS, st).t))
+        st.assume(LCVS.len(r.t) >= 0)
+        return r
+    reg.module_calls[("Attractors", "xie_beerel")] = xb
+
+    def rb(eng, st, node):
+        a = [eng.ev(x, st) for x in node.args]
+        return Val(TVS, ReachBwd(a[0].t, eng.coerce(a[1], TVS, st).t))
+    reg.module_calls[("Reachability", "reach_bwd")] = rb
